@@ -32,6 +32,10 @@ def layout_seeds() -> list[str]:
     return json.load(open(os.path.join(CORPUS, "py_layout_seeds.json")))
 
 
+def invalid_seeds() -> list[str]:
+    return json.load(open(os.path.join(CORPUS, "invalid_seeds.json")))
+
+
 def xonsh_seeds() -> list[str]:
     return json.load(open(os.path.join(CORPUS, "xonsh_seeds.json")))
 
